@@ -9,7 +9,8 @@
    every Offset finds a process of its name open (what the onset validator enforces).
    All theorems are for ALL histories (no bound on length, names, times). *)
 From Coq Require Import List NArith ZArith Arith Bool.
-From HV Require Import Base.Res Model.Events Proofs.EventsProofs Proofs.EventsTime.
+From HV Require Import Base.Res Model.Events Model.EventQueries Proofs.EventsProofs Proofs.EventsTime
+  Proofs.EventQueriesProofs.
 Import ListNotations.
 
 (* Files whose onsets are not non-decreasing are rejected (HedFileError) ... *)
@@ -131,6 +132,30 @@ Theorem C20_remaining_kept : forall h o, event_manager h = Ok o ->
   o_hed o = map (fun r => filter is_plain (r_items r)) (o_rows o).
 Proof. exact em_remaining. Qed.
 Print Assumptions C20_remaining_kept.
+
+(* "The remaining annotation of each point is kept", across consumers: for ANY sequence of reports
+   asked of one constructed manager (unfold_context / tag-manager objects with any remove_types, or
+   the stored strings; Model/EventQueries.v: objects in a store, _filter_hed edits a fresh copy), and
+   for any effect [strip] of type removal on an item: no query raises, the manager's stored row
+   annotations are unchanged, and every answer is the one the freshly constructed manager gives to
+   that query alone.  (The implementation side of this clause is tested: consumer histories against a
+   freshly built manager.) *)
+Theorem C20_queries_history_independent :
+  forall (strip : list N -> bool -> item -> list item) (o : output) (qs : list query),
+  exists s' answers,
+    run_history strip (manager_of o) (store_of o) qs = Ok (s', answers) /\
+    firstn (length (store_of o)) s' = store_of o /\
+    Forall2 (fun q a => exists s1, run_query strip (manager_of o) (store_of o) q = Ok (s1, a)) qs answers.
+Proof. exact history_independent. Qed.
+Print Assumptions C20_queries_history_independent.
+
+(* Contrast (why the copy in _filter_hed matters): a variant that edits the stored object changes
+   what the manager holds after one filtered report. *)
+Theorem C20_reuse_changes_store :
+  exists (s : store) s' r, filter_hed_obj_reuse drop_typed s 0 [7%N] false = Ok (s', r) /\
+                          read s' 0 <> read s 0.
+Proof. exact reuse_changes_store. Qed.
+Print Assumptions C20_reuse_changes_store.
 
 (* Duration ends are found by bisection: on any non-decreasing onset list bisect_left never raises,
    needs no more than the given fuel, and returns the unique index splitting "< x" from ">= x". *)
